@@ -434,7 +434,8 @@ static void run_C13(const Args &a, long cs) {
 	uint32_t monodim = Table::no_monodim;
 	if (r.coin(0.3)) { // one shared smoothing / penalty-order entry for all dimensions (orders differ between dimensions: the shared penalty order may exceed some of them)
 		uint32_t mx = 0; for (auto o : ord) mx = std::max(mx, o);
-		lam.assign(1, r.coin(0.2) ? 0.0 : std::pow(10.0, (double)r.range(-3, 3))); por.assign(1, (uint32_t)r.below(mx + 3)); count("tuples-with-shared-penalty-arguments");
+		int form = (int)r.below(3); // 0: both shared, 1: only the smoothing shared, 2: only the penalty order shared (the two arguments are independent)
+		if (form != 2) lam.assign(1, r.coin(0.2) ? 0.0 : std::pow(10.0, (double)r.range(-3, 3))); if (form != 1) por.assign(1, (uint32_t)r.below(mx + 3)); count(form == 0 ? "tuples-with-shared-penalty-arguments" : form == 1 ? "tuples-with-shared-smoothing-only" : "tuples-with-shared-penalty-order-only");
 	}
 	bool must_reject = false; std::vector<std::string> applied;
 	int ncorr = cs % 7 == 0 ? 0 : (r.coin(0.25) ? 2 : 1);
